@@ -262,3 +262,8 @@ LEVEL_TEXT = ("Decides, on every CFG path of the real queue code, the release/ac
 LEVEL_NOTE = ("Trusted: rustc MIR + resolution; the floor table (minimal orderings argued in DESIGN.md C03). Not decided: behaviour over interleavings. "
               "A weakened ordering, a reordered slot access/publication, a changed modulus or queue size is reported with file:line.")
 TECHNIQUE = "static analysis: MIR dominance + memory-ordering constant rules + symbolic size polynomials (custom rustc driver)"
+
+
+def witnesses(R, tier):
+    from . import witness
+    return witness.run(R, 'C03', tier)
